@@ -137,6 +137,9 @@ Inductive err :=
 | EDeserialize (cls : string) (e : err)
 | EYamlShape (what : string)                          (* serde type error: classes/applications/parameters *)
 | EMetaParts                                          (* as_reclass: empty parts *)
+| EDuplicate (kind name p1 p2 : string)               (* Definition of <kind> '<name>' in p1 collides with p2 *)
+| ENodeFailed (node : string) (e : err)               (* Error rendering node <node>: e *)
+| EConfig (what : string)                             (* configuration errors *)
 | EOther (msg : string).
 
 Inductive res (A : Type) :=
